@@ -44,7 +44,7 @@ class Ctx:
             self.tree_hash = th
             f = factsmod.Facts(path)
             self._facts[cfg] = f
-            self.stats["configs"].append({"config": cfg, "bodies": f.meta["bodies"], "cargo": " ".join(extract.CONFIGS[cfg][0])})
+            self.stats["configs"].append({"config": cfg, "bodies": f.meta["bodies"], "cargo": " ".join(extract.CONFIGS[cfg][0]) + ((" [RUSTFLAGS " + extract.CONFIGS[cfg][2] + "]") if len(extract.CONFIGS[cfg]) > 2 else "")})
         return self._facts[cfg]
 
     # -- obligations ------------------------------------------------------------------------
